@@ -458,6 +458,22 @@ def run(ctx):
         check_serialization_scope(ctx, prog, tag)
         check_scalar_tables(ctx, prog, tag)
         check_json_autoescape(ctx, prog, tag)
+        # T10 (after seed C16-9): bytes that are valid UTF-8 have a string view (`as_str()` is Some for them).  A bridge
+        # function that decides by that view hands such bytes to the visitor as a string, so a byte string no longer
+        # round-trips (by reference only, and only when its content happens to be UTF-8).  Inside the bridge `as_str()` is
+        # used only under `kind() == String` (or in an arm of the string representations).
+        from .c07 import strview_is_guarded
+        n10 = 0
+        for g in sorted(prog.fns.values(), key=lambda x: x.path):
+            if g.crate != "minijinja" or not (g.loc.f.endswith(("value/deserialize.rs", "value/serialize.rs")) or "serde_core::ser::Serialize" in g.path):
+                continue
+            n10 += 1
+            bad10 = [c for c in g.calls() if c.name == "minijinja::value::Value::as_str" and c.args and not strview_is_guarded(g, c)]
+            ctx.ob("C16.T10.text-view-is-used-for-strings-only", tag + g.path, not bad10,
+                   "%s decides by `as_str()` without `kind() == String`: bytes whose content is UTF-8 take the string path"
+                   % g.path.split("::")[-1], g.where(bad10[0].bb) if bad10 else g.loc)
+        if any(g.loc.f.endswith("value/deserialize.rs") for g in prog.fns.values()):
+            ctx.floor("C16.T10 functions of the serde bridge" + tag, n10, 30)
         # T9: the bridge treats the two string representations (heap / inline) alike: text goes in and comes out whatever
         # its length (shared rule, C07.V13)
         from .c07 import check_string_reprs
